@@ -26,6 +26,7 @@ func C12(r *core.Run) {
 	arrayItems(r)
 	boundNarrowing(r)
 	freshExtensions(r)
+	ruleScopeModifiers(r)
 	attributeIndependence(r, "sym_sites", "*") // a declared rule is emitted whatever the sibling attributes are
 }
 
